@@ -36,9 +36,9 @@ Range(s) == {s[i] : i \in DOMAIN s}
 (* JSON arrays are sequences: the two sets of a configuration are rebuilt *)
 CfgOf(j) == [id |-> j.id, kind |-> j.kind, backend |-> j.backend, maxR |-> j.maxR, hookFile |-> j.hookFile,
              onDisk |-> j.onDisk, restartOn |-> Range(j.restartOn), shutdownOn |-> Range(j.shutdownOn),
-             stable |-> j.stable, entry |-> j.entry, answers |-> "full"]
+             stable |-> j.stable, entry |-> j.entry, answers |-> "full", migratable |-> j.migratable, finish |-> TRUE]
 NoConfig == [id |-> -1, kind |-> "normal", backend |-> "local", maxR |-> 0, hookFile |-> "empty", onDisk |-> FALSE,
-             restartOn |-> {}, shutdownOn |-> {}, stable |-> TRUE, entry |-> "controller", answers |-> "full"]
+             restartOn |-> {}, shutdownOn |-> {}, stable |-> TRUE, entry |-> "controller", answers |-> "full", migratable |-> FALSE, finish |-> TRUE]
 
 (* one initial state: the file is read once *)
 TraceInit == /\ all = ndJsonDeserialize(TraceFile)
@@ -56,6 +56,7 @@ Performs(s) == CASE s.act = "Exit" -> Exit(s.reason)
                  [] s.act = "PostMortem" -> \E D \in SUBSET AllDeviations : \E a \in {s.answer, NA} : PostMortemD(a, D)
                  [] s.act = "Direct" -> \E D \in SUBSET AllDeviations : \E a \in {s.answer, NA} : DirectD(a, D)
                  [] s.act = "LateRestart" -> LateRestart(s.reason)
+                 [] s.act = "Finish" -> Finish(s.reason)
 
 (* the logged projection of the real objects is the state the action leads to *)
 Observed(s) == /\ restarts' = s.restarts
